@@ -11,7 +11,7 @@ THEOREMS = ("C16_wg_counts_guarded, C16_wg_counts_live(_refuted), C16_wg_wait_re
 
 TYPES = ["PUB", "SUB", "REQ", "REP", "DEALER", "ROUTER", "PUSH", "PULL"]
 TCODE = {t: i for i, t in enumerate(TYPES)}
-DELEGATED = (1, 2, 5, 6, 7, 8, 16, 17)       # close() is the mailbox command UserClose
+DELEGATED = (1, 2, 5, 6, 7, 8, 16, 17, 19)       # close() is the mailbox command UserClose
 OPNAME = {1: "bind", 2: "connect", 3: "send", 4: "recv", 5: "set_option", 6: "get_option", 7: "monitor", 8: "close", 9: "drop",
           10: "sleep", 11: "term", 12: "wait", 13: "signal", 14: "send_multipart", 15: "recv_multipart", 16: "disconnect",
           17: "unbind", 18: "raw-listen"}
@@ -137,6 +137,11 @@ def gen_hist(rng, tier):
                             [[[1, 1, 0], [3, 0, 64, 12], [2, 0, 0], [10, 100]] + [[2, 0, 1], [10, 50]] * 10 + [[10, 200], closer,
                               [3, 0, 64, 1], [6, 0]]],
                             opts=[{"LINGER": 200, "SNDTIMEO": -1}, {"LINGER": 0, "RCVHWM": 1}], threads=thr, reap_ms=4500))
+    # F2c: a monitor whose one-event channel is full and whose receiver is alive but never read, endpoints still registered
+    for t in ("PULL", "DEALER", "PUB"):
+        for closer in ([8, 0], [11]):
+            cases.append(mk("full-monitor-%s-%s" % (t, OPNAME[closer[0]]), [t], ["tcp", "inproc"],
+                            [[[19, 0], [1, 0, 0], [1, 0, 1], [10, 100], closer, [6, 0]]], opts=[{"LINGER": 100}]))
     # F3: blocked recv
     for (tb, tc) in [("PULL", "PUSH"), ("SUB", "PUB"), ("REP", "REQ"), ("DEALER", "DEALER"), ("ROUTER", "DEALER")]:
         for closer in ([8, 0], [11]):
@@ -290,7 +295,8 @@ def problems_of(c, o):
                 # since the drain fix: only a command that lands between the drain's last try_recv and the mailbox close
                 # (two adjacent statements, no await in between) can still be left unanswered; that cannot happen on a
                 # current-thread runtime, where the old defect replays deterministically (conc-*-1 cases)
-                sig = SIG_MAILBOX if c.get("threads", 2) == 1 else SIG_WINDOW
+                # (a command issued BEFORE the shutdown started cannot be in that window either)
+                sig = SIG_MAILBOX if c.get("threads", 2) == 1 else (SIG_WINDOW if rel != 0 else None)
             elif op == 3 and c["types"][s] == "REQ":
                 sig = SIG_REQ
             elif op in (4, 15) and rel == 0 and peer_churned_before_close(c, o, s):
